@@ -143,6 +143,37 @@ def rel_drop_middle(a, pick):
     return _drop(a, 1 + pick % (n - 2)) if n >= 3 else None
 
 
+INT_KEYS = {"channel", "index", "vp", "type", "camMap"}
+
+
+def _f_of(bits, wide):
+    import struct
+
+    return struct.unpack("<d", struct.pack("<Q", bits))[0] if wide else struct.unpack("<f", struct.pack("<I", bits & 0xFFFFFFFF))[0]
+
+
+def clearly_different(x, y, wide=False, key=None):
+    """do two items (or parts of items) differ in a way every faithful comparison must see: a text, an integer, the presence of a value,
+    or a number by a clear margin? Signed zeros, or numbers closer than 0.1 %, are NOT a clear difference (the statement says 'beyond
+    float tolerance'); such pairs are simply not used as witnesses."""
+    if isinstance(x, dict) and isinstance(y, dict):
+        return set(x) != set(y) or any(clearly_different(x[k], y[k], wide, k) for k in x)
+    if isinstance(x, list) and isinstance(y, list):
+        return len(x) != len(y) or any(clearly_different(p, q, wide, key) for p, q in zip(x, y))
+    if (x is None) != (y is None):
+        return True
+    if x is None:
+        return False
+    if isinstance(x, str) or isinstance(y, str) or key in INT_KEYS:
+        return x != y
+    if isinstance(x, int) and isinstance(y, int):
+        p, q = _f_of(x, wide), _f_of(y, wide)
+        if p != p or q != q:
+            return (p != p) != (q != q)
+        return abs(p - q) > 1e-3 * max(1.0, abs(p), abs(q))
+    return x != y
+
+
 def rel_swap(a, pick):
     """two adjacent, different items exchanged (order of tracks / signals / ... is content)"""
     t = a["t"]
@@ -151,7 +182,7 @@ def rel_swap(a, pick):
         if a["nCams"] < 2:
             return None
         i = pick % (a["nCams"] - 1)
-        same = a["camMap"][i] == a["camMap"][i + 1] and all(row[i] == row[i + 1] for row in a["cells"])
+        same = a["camMap"][i] == a["camMap"][i + 1] and not any(clearly_different(row[i], row[i + 1]) for row in a["cells"])
         if same:
             return None
         b["camMap"][i], b["camMap"][i + 1] = b["camMap"][i + 1], b["camMap"][i]
@@ -162,7 +193,7 @@ def rel_swap(a, pick):
     if len(its) < 2:
         return None
     i = pick % (len(its) - 1)
-    if its[i] == its[i + 1] and (t != "calib" or a["map"][i] == a["map"][i + 1]):
+    if not clearly_different(its[i], its[i + 1], wide=(t == "calib")) and (t != "calib" or a["map"][i] == a["map"][i + 1]):
         return None
     its[i], its[i + 1] = its[i + 1], its[i]
     if t == "calib":
@@ -183,7 +214,7 @@ def rel_duplicate(a, pick):
     i = pick % len(its)
     j = (i + 1 + (pick // 7) % (len(its) - 1)) % len(its)
     strip = lambda it: {k: v for k, v in it.items() if k != "channel"}  # noqa
-    if strip(its[i]) == strip(its[j]):
+    if not clearly_different(strip(its[i]), strip(its[j]), wide=(t == "calib")):
         return None
     if t == "platData":
         return None  # no labels; sample equality is tolerance based, so two items may differ only below tolerance
